@@ -447,8 +447,10 @@ fn to_block(rng: &mut Rng, toks: &[Tk], indent: bool) -> (Vec<Tk>, bool) {
 
 struct PG<'a> { rng: &'a mut Rng, t: Vec<Tk>, budget: i32, constructs: Vec<&'static str> }
 const NAMES: &[&str] = &["a", "b1", "foo", "A", "Bar", "_", "__typename", "_x9", "query", "mutation", "type", "input", "enum", "extend", "schema", "implements",
-    "repeatable", "import", "from", "fragment", "interface", "union", "scalar", "directive", "subscription", "onX", "queryX", "trueish", "nullable", "Int", "String", "ID"];
-const TYPE_NAMES: &[&str] = &["Int", "String", "A", "Bar", "T_1", "on", "query", "type", "null", "true", "ID", "Float"];
+    "repeatable", "import", "from", "fragment", "interface", "union", "scalar", "directive", "subscription", "onX", "queryX", "trueish", "nullable", "Int", "String", "ID",
+    // a keyword continued by a digit or underscore: one Name by maximal munch (spec 2.1.9), never keyword + rest
+    "true1", "false0", "null2", "null0", "on1", "query2", "type9", "fragment_1", "extend3", "true_", "null_1", "on_", "input0", "implements2", "from1", "import_2", "schema4", "repeatable5", "mutation6", "subscription7", "union8", "enum_9", "scalar0", "interface1", "directive2"];
+const TYPE_NAMES: &[&str] = &["Int", "String", "A", "Bar", "T_1", "on", "query", "type", "null", "true", "ID", "Float", "on1", "true1", "null0", "type9", "false_2", "extend3"];
 const LOCS: &[&str] = &["QUERY", "MUTATION", "SUBSCRIPTION", "FIELD", "FRAGMENT_DEFINITION", "FRAGMENT_SPREAD", "INLINE_FRAGMENT", "VARIABLE_DEFINITION",
     "SCHEMA", "SCALAR", "OBJECT", "FIELD_DEFINITION", "ARGUMENT_DEFINITION", "INTERFACE", "UNION", "ENUM", "ENUM_VALUE", "INPUT_OBJECT", "INPUT_FIELD_DEFINITION"];
 const STRS: &[&str] = &["\"\"", "\"s\"", "\"a b\"", "\"q\\\"q\"", "\"\\u00e9\\n\\t\"", "\"é日本😀\"", "\"\\\\ \\/ \\b\\f\\r\"", "\"\\u{1F600}\"", "\"\\u{e9}x\"", "\"#not a comment\"", "\"a,b\""];
@@ -814,6 +816,8 @@ fn corpus() -> Vec<(Kind, &'static str, &'static str, bool)> {
         (Kind::Op, "import-multiline", "#import A,\n  B # c\n from \"x\" { a }", true),
         (Kind::Op, "important-comment", "# important\n{ a }", true),
         (Kind::Op, "keyword-names", "query query($on: on = on) { on: on fragment: type ...query ... on on { on } }", true),
+        (Kind::Op, "keyword-digit-names", "query query2($true1: on1 = null0 @false0) { true1: null2(x: true1, y: [null0, false0, on1], z: {true_: false0}) @on1 ...fragment_1 ... on on1 { type9 } }", true),
+        (Kind::Op, "keyword-digit-fragment", "fragment on1 on true1 { null_1 } fragment fragment_1 on on_ { query2 }", true),
         (Kind::Op, "numbers", "{ a(i: -0, j: 12, f: 1.5e-3, g: 1E5, h: 0.0) }", true),
         (Kind::Op, "int-then-name", "{ a(i: 1x) }", false),
         (Kind::Op, "float-dot", "{ a(i: 1.) }", false),
@@ -844,6 +848,9 @@ fn corpus() -> Vec<(Kind, &'static str, &'static str, bool)> {
         (Kind::Ts, "crlf-schema", "type A {\r\n  f: Int\r\n}\r\nscalar S", true),
         (Kind::Ts, "two-types", "type A { f: Int } type B { g: [A!]! }", true),
         (Kind::Ts, "enum-true", "enum E { true }", false),
+        (Kind::Ts, "keyword-digit-enum", "enum true1 { true1 false0 null2 on1 type9 } extend enum null0 { null_1 }", true),
+        (Kind::Ts, "keyword-digit-types", "type type9 implements on1 & implements2 { true1(null0: input0 = true1): [on1!] @extend3 } union union8 = true1 | null0 directive @on1 repeatable on FIELD", true),
+        (Kind::Ts, "keyword-digit-schema", "schema { query: query2 mutation: mutation6 } scalar scalar0 interface interface1 input input0 { from1: import_2 = null0 }", true),
         (Kind::Ts, "op-in-schema", "query { a }", false),
     ]
 }
